@@ -411,6 +411,7 @@ Certificate = Union[
     StakeRegistrationAndDelegationAndVoteDelegation,
     AuthCommitteeHotCertificate,
     ResignCommitteeColdCertificate,
+    RegDRepCert,
     UnregDRepCertificate,
     UpdateDRepCertificate,
 ]
